@@ -101,6 +101,31 @@ def check_outcome(rc, out, before, after, call, path, what):
     return probs
 
 
+def short_write_runs(ctx):
+    """a write that only partly succeeds (file size limit: the first write is cut short, the next one fails) is an output
+    failure like any other: exit status 1, a message, nothing recorded - the rest of a line must not be dropped silently"""
+    body = b"".join(b"line %04d of a file that is larger than the limit\n" % i for i in range(130))      # ~6 KB
+    w = {"files": {b"big.txt": (body, 0o644)}, "dirs": [], "applied": None, "series": b"p.patch\n",
+         "patches": {b"p.patch": b"--- a/big.txt\n+++ b/big.txt\n@@ -1,2 +1,2 @@\n-line 0000 of a file that is larger than the limit\n+LINE 0\n line 0001 of a file that is larger than the limit\n"}}
+    limit = ["bash", "-c", 'trap "" XFSZ; ulimit -f 2; exec "$@"', "--"]
+    probs = []
+    for th in (1, 2):
+        for backup in "NA":
+            cfg = l3gen.default_cfg()
+            cfg["threads"] = th
+            cfg["backup"] = backup
+            cfg["extra"] = ["-q"]
+            d = l3gen.materialize(w, prefix="c18s")
+            before = l3gen.canon_snapshot(ws.snapshot(d, skip=("patches",)))
+            rc, out = ws.run_push(ctx.binary, d, l3gen.cfg_args(cfg), timeout=30, wrapper=limit)
+            after = l3gen.canon_snapshot(ws.snapshot(d, skip=("patches",)))
+            ws.cleanup(d)
+            ctx.coverage["short_write_runs"] = ctx.coverage.get("short_write_runs", 0) + 1
+            probs += check_outcome(rc, out, before, after, "write", "big.txt", "file size limit, threads=%d backup=%s" % (th, backup))
+    if probs:
+        ctx.violation({"kind": "output-failure-mishandled", "problems": probs[:4], "note": "ulimit -f 2 with SIGXFSZ ignored: writes beyond 1 KiB are cut short, then fail with EFBIG"})
+
+
 def model_faults(ctx, w, cfg):
     """run the model with the fault at k = 0, 1, ... until it no longer fires -> [(k, result)]"""
     res = []
@@ -123,6 +148,7 @@ def run(ctx):
     bad = 0
     total_pos = 0
     total_inj = 0
+    short_write_runs(ctx)
     for i in range(n):
         single = (i % 3 == 0)
         if single:
